@@ -56,6 +56,12 @@ def compare(stream, header, ops, impl, model):
             continue
         x = a[k] if k < len(a) else None
         y = b[k] if k < len(b) else None
+        if k < len(ops) and ops[k].startswith("prank") and x and y and x[0].startswith("scores") and y[0].startswith("scores"):
+            # floating point against exact rationals: scaled by 1e9, equal within 20 units; NaN (-1) must be matched by None (-1)
+            p, q = nums(x[0]), nums(y[0])
+            if len(p) == len(q) and all((u == -1) == (w == -1) and abs(u - w) <= 20 for u, w in zip(p, q)):
+                continue
+            return k
         if k < len(ops) and ops[k].startswith("maximal_cliques") and x and y:
             x = [x[0]] + sorted(x[1:], key=lambda l: nums(l))
             y = [y[0]] + sorted(y[1:], key=lambda l: nums(l))
@@ -271,6 +277,14 @@ def oracle(stream, header, ops, obs):
                         best = tot
             if best is not None and sum(w for (_, _, w) in te) > 2 * best:
                 return bad(k, "steiner-tree-heavier-than-twice-the-optimum", best)
+        elif name == "prank":
+            r1 = nums(g[0])
+            if len(r1) != len(v["nodes"]) or len(r1) != v["bound"]:
+                return bad(k, "page-rank-is-not-one-rank-per-node")
+            if any(x < 0 for x in r1):
+                return bad(k, "page-rank-not-a-number-for-damping-0" if a[0] == 0 else "page-rank-negative-or-not-finite")
+            if r1 and abs(sum(r1) - 10 ** 9) > 2000:
+                return bad(k, "page-rank-does-not-sum-to-one", sum(r1))
         elif name == "page_rank":
             r1, r2, perm, cnt = nums(g[0]), nums(g[1]), nums(g[2]), nums(g[3])
             count, bound = cnt[0], cnt[1]
